@@ -198,6 +198,11 @@ func oracleMetrics(d caseDesc, o observation) []failure {
 	if !hasKeyword(line) && total != 0 {
 		fs = append(fs, failure{"metrics:counted-without-keyword", fmt.Sprintf("counters changed (%v) for %q, which begins with no recognised keyword", o.Metrics, line)})
 	}
+	if n := len(o.Events); n > 1 && total != n {
+		// every emitted event is counted once: n events need n increments
+		fs = append(fs, failure{"metrics:not-once", fmt.Sprintf("%d events emitted for %q but the login counter moved by %d (%v)", n, line, total, o.Metrics)})
+		return fs
+	}
 	if len(o.Events) == 1 {
 		e := o.Events[0]
 		if total != 1 {
